@@ -3,6 +3,10 @@
 // Contracts for package accesscontroller/ipfs, read by /verif/govc. Comments only.
 package ipfs
 
+// authorBound(e): the key the entry is signed with belongs to the identity named in the entry (taken from the
+// property statement: "an entry counts as authored by an identity only if it is signed with that identity's key")
+//@ spec func authorBound(e Iface) Bool
+
 // CanAppend returns nil only for an entry whose identity id is in the write list, or when the list holds
 // the wildcard, and only if the identity provider accepted the identity.
 //@ func (*ipfsAccessController).CanAppend
@@ -15,6 +19,7 @@ package ipfs
 //@   ensures result == nil ==> (exists j Int :: 0 <= j && j < len(i.writeAccess) && (i.writeAccess[j] == id || i.writeAccess[j] == "*"))
 //@   ensures result == nil ==> verifyOK(p, ptr(entry, "entry.Entry").Identity)
 //@   ensures (forall j Int :: 0 <= j && j < len(i.writeAccess) ==> i.writeAccess[j] != id && i.writeAccess[j] != "*") ==> result != nil
+//@   ensures result == nil && (forall j Int :: 0 <= j && j < len(i.writeAccess) ==> i.writeAccess[j] != "*") ==> authorBound(entry)
 //@   modifies nothing
 
 // Save (C14): the saved-parameters address is the content address of the JSON of the write list, a
